@@ -87,6 +87,10 @@ def blank():
             'frozen': True}
 
 
+DOLLAR_TEXTS = [' $ in-line comment, with words', ' $ see the R&D note &', ' $comment', ' $ a & b $ once more &  ',
+                ' $ 1 2 3 imp:n=0 u=7']
+
+
 def ws(seq):
     return ''.join(' ' if c == 'b' else '\t' for c in seq)
 
@@ -108,6 +112,7 @@ def render(lines):
         if l['amp']:
             s += ' &'
         if l['dollar']:
-            s += ' $ in-line comment, with words'
+            # the text of a comment means nothing, whatever it contains or ends with
+            s += DOLLAR_TEXTS[(len(out) + len(l['toks'])) % len(DOLLAR_TEXTS)]
         out.append(s)
     return '\n'.join(out) + '\n'
